@@ -8,7 +8,11 @@ run_scenario(scn, choices) runs one schedule of one scenario and returns the can
 
 A scenario is a JSON-able dict:
   {"stack": "sync"|"async", "lock": bool, "chunk": int, "host": str, "outputs": {cmd: text},
-   "callers": [{"op": ..., ...}], "faults": [...], "timeouts": {"<c>": seconds}, "no_terminate": bool}"""
+   "callers": [{"op": ..., ...}], "faults": [...], "timeouts": {"<c>": seconds}, "no_terminate": bool}
+A caller with "retry": true whose operation fails with an exception re-opens the connection
+(channel.close(), transport.open(), channel.open(): what Driver.close / Driver.open do) and runs the operation once more.
+faults: raise|boom (k-th transport call of the caller raises), timeout / timeout_lockwait / timeout_stuck,
+cancel / cancel_lockwait (asyncio: the caller's task is cancelled at its k-th transport call / in the lock queue)."""
 import logging
 import unittest.mock
 
@@ -18,7 +22,7 @@ from .simdevice import SimDevice
 PROMPT_PATTERN = r"^[a-z0-9.\-@()/:]{1,48}[#>$]\s*$"
 
 
-def _channel(stack, lock, transport_factory):
+def _channel(stack, lock, transport_factory, sched=None):
     from scrapli.channel import AsyncChannel, Channel
     from scrapli.channel.base_channel import BaseChannelArgs
     from scrapli.transport.base.base_transport import BaseTransportArgs
@@ -27,7 +31,11 @@ def _channel(stack, lock, transport_factory):
     args = BaseChannelArgs(comms_prompt_pattern=PROMPT_PATTERN, comms_return_char="\n", timeout_ops=0,
                            channel_lock=lock)
     t = transport_factory(bta)
-    ch = (Channel if stack == "sync" else AsyncChannel)(transport=t, base_channel_args=args)
+    cls = Channel if stack == "sync" else AsyncChannel
+    if sched is not None:
+        cls = S.instrumented_channel_class(cls, sched, S.SchedLock if stack == "sync" else S.ASchedLock)
+    ch = cls(transport=t, base_channel_args=args)
+    ch.open()                   # (what Driver.open does after the transport is up)
     return ch, t, args
 
 
@@ -84,12 +92,11 @@ def run_scenario(scn, choices=(), max_steps=4000):
     cls = S.ThreadSched if stack == "sync" else S.TaskSched
     sched = cls(n, wire, scn.get("faults", []), chooser, max_steps=max_steps)
     mk = S.make_sync_transport if stack == "sync" else S.make_async_transport
-    ch, t, args = _channel(stack, scn["lock"], lambda bta: mk(sched, bta))
-    created = ch.channel_lock
+    ch, t, args = _channel(stack, scn["lock"], lambda bta: mk(sched, bta), sched)
+    created = sched.lock_objects[0] if sched.lock_objects else None
     created_type = None if created is None else type(created).__module__ + "." + type(created).__name__
-    if created is not None:
-        ch.channel_lock = (S.SchedLock if stack == "sync" else S.ASchedLock)(created, sched)
-        sched.lock_probe = created.locked
+    if (ch.channel_lock is None) != (created is None):
+        created_type = "inconsistent: channel_lock is %r" % type(ch.channel_lock).__name__
     results = {}
     timeouts = {int(k): v for k, v in scn.get("timeouts", {}).items()}
 
@@ -104,16 +111,28 @@ def run_scenario(scn, choices=(), max_steps=4000):
     def sync_starter(c, spec):
         def go():
             args.timeout_ops = timeouts.get(c, 0)
-            try:
-                r = _call(ch, spec)
-            except S.Abort:
-                raise
-            except BaseException as e:  # noqa
-                if isinstance(e, S.Wedged):
+            tries = 2 if spec.get("retry") else 1
+            while True:
+                tries -= 1
+                try:
+                    r = _call(ch, spec)
+                except S.Abort:
                     raise
-                record(c, exc=e)
-            else:
-                record(c, r)
+                except BaseException as e:  # noqa
+                    if isinstance(e, S.Wedged):
+                        raise
+                    if tries and isinstance(e, Exception):
+                        # the connection dropped under the caller: bring it back and try once more
+                        sched.park(c, "reopen")
+                        ch.close()              # (what Driver.close / Driver.open do for the channel)
+                        sched.reopen_wire(c)
+                        t.open()
+                        ch.open()
+                        continue
+                    record(c, exc=e)
+                else:
+                    record(c, r)
+                return
         return go
 
     def async_starter(c, spec):
@@ -122,18 +141,30 @@ def run_scenario(scn, choices=(), max_steps=4000):
             args.timeout_ops = timeouts.get(c, 0)
             if args.timeout_ops:
                 sched.deadline[c] = asyncio.get_running_loop().time() + args.timeout_ops
-            try:
-                r = await _call(ch, spec)
-            except S.Abort:
-                raise
-            except asyncio.CancelledError:
-                raise
-            except BaseException as e:  # noqa
-                if isinstance(e, S.Wedged):
+            tries = 2 if spec.get("retry") else 1
+            while True:
+                tries -= 1
+                try:
+                    r = await _call(ch, spec)
+                except S.Abort:
                     raise
-                record(c, exc=e)
-            else:
-                record(c, r)
+                except asyncio.CancelledError as e:
+                    record(c, exc=e)
+                    raise
+                except BaseException as e:  # noqa
+                    if isinstance(e, S.Wedged):
+                        raise
+                    if tries and isinstance(e, Exception):
+                        await sched.park(c, "reopen")
+                        ch.close()
+                        sched.reopen_wire(c)
+                        await t.open()
+                        ch.open()
+                        continue
+                    record(c, exc=e)
+                else:
+                    record(c, r)
+                return
         return go
 
     dev.start()
@@ -167,7 +198,9 @@ def run_scenario(scn, choices=(), max_steps=4000):
         "verdict": sched.verdict,
         "wedged": wedged,
         "lock_created": created_type,
-        "lock_free_at_end": (None if inner is None else (not (sched.final_lock if sched.final_lock is not None else inner.locked()))),
+        "lock_free_at_end": (None if inner is None else (not (sched.final_lock if sched.final_lock is not None else sched.lock_probe()))),
+        "lock_objects": len(sched.lock_objects),
+        "pending_io": [list(x) for x in sched.pending_io],
         "stuck_owner": sched.final_owner,
         "choices": [list(x) for x in sched.choices],
         "residue": bytes(dev.out[wire.delivered:]).hex(),
